@@ -174,3 +174,248 @@ theorem finishLayers_default_first {r : Request} {ls out : List ALayer}
     exact ⟨d, rest, rfl, extractDefault_isDefault he⟩
 
 end FontLoad
+
+namespace FontLoad
+open AbsFS FontSave
+
+variable {β : Type}
+
+/-! ### the single-file parts under a request -/
+
+def stripLibs (i : AInfo) : AInfo := { i with guides := i.guides.map fun g => { g with lib := none } }
+
+def restrictScalars (r : Request) (sc : Scalars) : Scalars :=
+  { sc with
+    lib := if r.lib then sc.lib else [],
+    info := if r.lib then sc.info else stripLibs sc.info,
+    groups := if r.groups then sc.groups else 0,
+    kerning := if r.kerning then sc.kerning else 0,
+    features := if r.features then sc.features else 0 }
+
+theorem libStage_of_true {P : Parser β} {fs : FS β} {t : APath} {l}
+    (h : libStage P fs t true = .ok l) (sw : Bool) :
+    libStage P fs t sw = .ok (if sw then l else []) := by
+  cases sw with
+  | true => simpa using h
+  | false => simp [libStage, readOpt]
+
+theorem groupsStage_of_true {P : Parser β} {fs : FS β} {t : APath} {g}
+    (h : groupsStage P fs t true = .ok g) (sw : Bool) :
+    groupsStage P fs t sw = .ok (if sw then g else 0) := by
+  cases sw with
+  | true => simpa using h
+  | false => simp [groupsStage, readOpt]
+
+theorem tokStage_of_true {fs : FS β} {t : APath} {name} {parse : β → Option Nat} {g}
+    (h : tokStage fs t true name parse = .ok g) (sw : Bool) :
+    tokStage fs t sw name parse = .ok (if sw then g else 0) := by
+  cases sw with
+  | true => simpa using h
+  | false => simp [tokStage, readOpt]
+
+theorem assignLibs_strip (ol : List (Str × Option Nat)) :
+    ∀ (gs : List (Option Str)) (out : List AGuide), assignLibs ol gs = some out →
+      out.map (fun g => { g with lib := none }) = gs.map fun g => ({ ident := g, lib := none } : AGuide) := by
+  intro gs
+  induction gs with
+  | nil => intro out h; simp [assignLibs] at h; subst h; rfl
+  | cons g r ih =>
+    intro out h
+    unfold assignLibs at h
+    cases hr : assignLibs ol r with
+    | none => simp [hr] at h
+    | some t =>
+      simp only [hr] at h
+      have iht := ih t hr
+      cases g with
+      | none => simp at h; subst h; simp [iht]
+      | some i =>
+        simp only at h
+        cases hk : lookupKey i ol with
+        | none => simp [hk] at h; subst h; simp [iht]
+        | some v =>
+          cases v with
+          | none => simp [hk] at h
+          | some l => simp [hk] at h; subst h; simp [iht]
+
+theorem infoStage_without_lib {infoFile : Option InfoFile} {lib0 : List (Str × LVal)} {info lib}
+    (h : infoStage infoFile lib0 = .ok (info, lib)) :
+    infoStage infoFile [] = .ok (stripLibs info, []) := by
+  cases infoFile with
+  | none =>
+    simp only [infoStage] at h ⊢
+    cases h
+    rfl
+  | some i =>
+    simp only [infoStage, loadFontInfo] at h ⊢
+    by_cases hv : i.valid = true
+    · simp only [hv, Bool.not_true, Bool.false_eq_true, if_false, lookupKey] at h ⊢
+      cases hk : lookupKey objectLibsKey lib0 with
+      | none =>
+        simp only [hk] at h
+        cases h
+        simp [stripLibs]
+      | some v =>
+        cases v with
+        | v n => simp [hk] at h
+        | objNotDict => simp [hk] at h
+        | objDict ol =>
+          simp only [hk] at h
+          cases ha : assignLibs ol i.guides with
+          | none => simp [ha] at h
+          | some gs =>
+            simp only [ha] at h
+            cases h
+            have := assignLibs_strip ol i.guides gs ha
+            simp [stripLibs, this]
+    · simp [hv] at h
+
+theorem loadScalars_restrict {P : Parser β} {fs : FS β} {t : APath} {sc : Scalars} (r : Request)
+    (h : loadScalars P fs t Request.everything = .ok sc) :
+    loadScalars P fs t r = .ok (restrictScalars r sc) := by
+  unfold loadScalars at h ⊢
+  cases hn : node fs t with
+  | none => simp [hn] at h
+  | some nd =>
+    cases nd with
+    | file b => simp [hn] at h
+    | dir =>
+      simp only [hn] at h ⊢
+      by_cases hm : existsAt fs (sub t "metainfo.plist") = true
+      · simp only [hm, Bool.not_true, Bool.false_eq_true, if_false] at h ⊢
+        cases hmeta : readParsed fs (sub t "metainfo.plist") P.metainfo "metainfo.plist" with
+        | error e => simp [hmeta] at h
+        | ok vm =>
+          obtain ⟨version, metaTok⟩ := vm
+          simp only [hmeta] at h ⊢
+          by_cases hv : version = 3
+          · simp only [hv, ne_eq, not_true_eq_false, if_false] at h ⊢
+            cases hlib : libStage P fs t true with
+            | error e => simp [Request.everything, hlib] at h
+            | ok lib0 =>
+              simp only [Request.everything, hlib] at h
+              rw [libStage_of_true hlib r.lib]
+              simp only
+              cases hinfo : readOpt true fs (sub t "fontinfo.plist") P.fontinfo "fontinfo.plist" with
+              | error e => simp [hinfo] at h
+              | ok infoFile =>
+                simp only [hinfo] at h ⊢
+                cases his : infoStage infoFile lib0 with
+                | error e => simp [his] at h
+                | ok il =>
+                  obtain ⟨info, lib⟩ := il
+                  simp only [his] at h
+                  cases hg : groupsStage P fs t true with
+                  | error e => simp [hg] at h
+                  | ok groups =>
+                    simp only [hg] at h
+                    cases hk : tokStage fs t true "kerning.plist" P.kerning with
+                    | error e => simp [hk] at h
+                    | ok kerning =>
+                      simp only [hk] at h
+                      cases hf : tokStage fs t true "features.fea" P.features with
+                      | error e => simp [hf] at h
+                      | ok features =>
+                        simp only [hf] at h
+                        cases h
+                        rw [groupsStage_of_true hg r.groups, tokStage_of_true hk r.kerning,
+                          tokStage_of_true hf r.features]
+                        cases hrl : r.lib with
+                        | true => simp [his, restrictScalars, hrl]
+                        | false =>
+                          simp [infoStage_without_lib his, restrictScalars, hrl]
+          · simp [hv] at h
+      · simp [hm] at h
+
+/-! ### layers -/
+
+theorem loadLayer_spec {P : Parser β} {fs : FS β} {t : APath} {n d : Str} {l : ALayer}
+    (h : loadLayer P fs t n d = .ok l) :
+    l.name = n ∧ lastName (joinRel (tC t) (Path.parse d)) = some l.dir := by
+  unfold loadLayer at h
+  simp only at h
+  split at h
+  · cases h
+  · split at h
+    · cases h
+    · split at h
+      · cases h
+      · split at h
+        · cases h
+        · split at h
+          · cases h
+          · rename_i dn hdn
+            cases h
+            exact ⟨rfl, hdn⟩
+
+theorem shouldLoad_everything (n d : Str) : shouldLoad Request.everything n d = true := by
+  simp [shouldLoad, Request.everything]
+
+theorem loadLayers_filter {P : Parser β} {fs : FS β} {t : APath} (r : Request) :
+    ∀ {lc : List (Str × Str)} {ls : List ALayer},
+      loadLayers P fs t Request.everything lc = .ok ls →
+      (∀ e ∈ lc, lastName (joinRel (tC t) (Path.parse e.2)) = some e.2) →
+      loadLayers P fs t r lc = .ok (ls.filter fun l => shouldLoad r l.name l.dir) := by
+  intro lc
+  induction lc with
+  | nil => intro ls h _; simp only [loadLayers] at h ⊢; cases h; rfl
+  | cons e rest ih =>
+    intro ls h hplain
+    obtain ⟨n, d⟩ := e
+    unfold loadLayers at h ⊢
+    simp only [shouldLoad_everything, if_true] at h
+    cases hl : loadLayer P fs t n d with
+    | error x => simp [hl] at h
+    | ok l =>
+      simp only [hl] at h
+      cases hr : loadLayers P fs t Request.everything rest with
+      | error x => simp [hr] at h
+      | ok ls' =>
+        simp only [hr] at h
+        cases h
+        have ih' := ih hr (fun e he => hplain e (List.mem_cons_of_mem _ he))
+        obtain ⟨hname, hdir⟩ := loadLayer_spec hl
+        have hd : l.dir = d := by
+          have := hplain (n, d) (List.mem_cons_self ..)
+          simp only at this
+          rw [this] at hdir
+          cases hdir; rfl
+        have hsame : shouldLoad r l.name l.dir = shouldLoad r n d := by rw [hname, hd]
+        by_cases hs : shouldLoad r n d = true
+        · simp only [hs, if_true, hl, ih']
+          simp [List.filter, hsame, hs]
+        · simp only [hs, Bool.false_eq_true, if_false, ih']
+          simp [List.filter, hsame, hs]
+
+theorem loadLayerSet_restrict {P : Parser β} {fs : FS β} {t : APath} {full : List ALayer} (r : Request)
+    (h : loadLayerSet P fs t Request.everything = .ok full)
+    (hone : ∀ x ∈ full.tail, isDefaultLayer x = false)
+    (hplain : ∀ lc, readParsed fs (sub t "layercontents.plist") P.layercontents "layercontents.plist" = .ok lc →
+      ∀ e ∈ lc, lastName (joinRel (tC t) (Path.parse e.2)) = some e.2) :
+    loadLayerSet P fs t r = .ok (restrictLayers r full) := by
+  unfold loadLayerSet at h ⊢
+  simp only at h ⊢
+  by_cases hex : existsAt fs (sub t "layercontents.plist") = true
+  · simp only [hex, Bool.not_true, Bool.false_eq_true, if_false] at h ⊢
+    cases hlc : readParsed fs (sub t "layercontents.plist") P.layercontents "layercontents.plist" with
+    | error e => simp [hlc] at h
+    | ok lc =>
+      simp only [hlc] at h ⊢
+      cases hls : loadLayers P fs t Request.everything lc with
+      | error e => simp [hls] at h
+      | ok ls =>
+        simp only [hls] at h
+        rw [loadLayers_filter r hls (hplain lc hlc)]
+        exact finishLayers_filter h hone
+  · simp [hex] at h
+
+/-! ### stores -/
+
+theorem loadStore_of_true {kind : StoreKind} {fs : FS β} {t : APath} {s : Store β}
+    (h : loadStore true kind fs t = .ok s) (sw : Bool) :
+    loadStore sw kind fs t = .ok (if sw then s else emptyStore) := by
+  cases sw with
+  | true => simpa using h
+  | false => simp [loadStore, emptyStore]
+
+end FontLoad
